@@ -272,6 +272,22 @@ def work(case):
     return res
 
 
+def struct_work(case):
+    """worker of the structure correspondence: the implementation side of one case (the real parse, the same with
+    validation off for the level-3 spellings, and the model's DOM with its opaque parts given to the real
+    sub-parsers)"""
+    import json
+    text, toks, struct, level = case
+    real = real_struct(text)
+    real_off = None
+    if level == 3 and not isinstance(real, tuple):
+        real_off = real_struct(text, validate=False)
+    mp = None
+    if struct is not None and struct.startswith('['):
+        mp = model_dom(json.loads(struct), toks)
+    return real, real_off, mp
+
+
 class C02(Check):
     id = 'C02'
     props_module = 'CssVerif.Props.C02'
@@ -418,6 +434,10 @@ class C02(Check):
             lines.append('erase ' + x)
             lines.append('struct ' + (','.join('%s:%s' % (t[0], enc(t[1])) for t in toks) or '-'))
         out = ctx.driver(lines) if ctx.model_ok else [None] * len(lines)
+        # the implementation side runs in the process pool
+        impl = run_cases(struct_work, [(text, toks, out[3 * idx + 2], level)
+                                       for idx, ((_, level, _, _), text, toks) in enumerate(zip(cases, texts, toklists))],
+                         timeout=90.0)
         for idx, ((ast, level, seed, ss), text, toks) in enumerate(zip(cases, texts, toklists)):
             rendered, erased, struct = out[3 * idx: 3 * idx + 3]
             ctx.case(key=('struct', text), nontrivial=level > 0, kind='struct-l%d' % level,
@@ -429,7 +449,13 @@ class C02(Check):
             if any(r[0] == 'media' and r[5] for r in ss['rules']):
                 ctx.count('struct-with-named-@media')
             want = S.erase(ss)
-            real = real_struct(text)
+            r = impl[idx][1]
+            if r[0] == 'hang':
+                ctx.violate('parsing a well-formed sheet returns a DOM', {'text': text}, {'hang_seconds': r[1]})
+                continue
+            if r[0] != 'ok':
+                raise RuntimeError('struct worker: %r on %r' % (r, text[:200]))
+            real, real_off, mp = r[1]
             if isinstance(real, tuple):
                 ctx.violate('parsing a well-formed sheet returns a DOM', {'text': text}, {'exception': real[1]})
                 continue
@@ -456,12 +482,10 @@ class C02(Check):
             if level == 3:
                 # the tie of `validate_irrelevant`: the same text parsed with validation off gives the same DOM
                 ctx.count('struct-validate-off')
-                real_off = real_struct(text, validate=False)
                 if real_off != real:
                     ctx.violate('disabling validation changes nothing in the DOM', {'text': text},
                                 {'first_difference': first_diff(real_off, real)})
                     continue
-            mp = model_dom(model, toks)
             if mp != real and drop_rejected_margin_decls(mp) == real:
                 ctx.violate('the DOM has the declarations of every margin box', {'text': text},
                             {'first_difference': first_diff(real, mp)}, known='C02-margin-box-space-dropped')
